@@ -533,6 +533,14 @@ pub fn cases(tier: Tier, seed: u64) -> Vec<Case> {
     ));
     out.push(net_case("dense-relu-dense", Shape::Single(2), vec![L::Dense(3, ReLU, true), L::Dense(2, LeakyReLU, true)], g, 64, "chain"));
     out.push(net_case("feedback-dense", Shape::Single(2), vec![L::Feedback(vec![L::Dense(2, Linear, true)], 2, false, false, Acc::Mean), L::Dense(1, Linear, false)], g, 16, "chain"));
+    out.push(net_case(
+        "feedback-feedback-dense",
+        Shape::Single(2),
+        vec![L::Feedback(vec![L::Dense(2, Tanh, true)], 2, false, false, Acc::Mean), L::Feedback(vec![L::Dense(2, Linear, true)], 2, false, false, Acc::Mean), L::Dense(1, Linear, false)],
+        g,
+        16,
+        "chain",
+    ));
     out.push(net_case("dense-softmax", Shape::Single(2), vec![L::Dense(2, Softmax, true)], Up::Objective(Obj::CrossEntropy), 64, "softmax+cross-entropy"));
     if full {
         for o in [Obj::AE, Obj::MSE, Obj::BinaryCrossEntropy, Obj::KLDivergence] {
